@@ -258,7 +258,8 @@ class E2ECheck:
                     ("conditional blocks judged at end", tot.get("cond_blocks_checked", 0), 100),
                     ("completions of conditionals resolved at submission judged against the snapshot", tot.get("resolution_snapshots_judged", 0), 50),
                     ("conditionals with an empty branch completed", tot.get("empty_branch_completions", 0), 30),
-                    ("... of which the empty branch was the one taken", tot.get("empty_branch_taken", 0), 5)]
+                    ("... of which the empty branch was the one taken", tot.get("empty_branch_taken", 0), 5),
+                    ("completions of a conditional that is also the join of the previous one", tot.get("conditional_completions_of_a_join", 0), 10)]
         if p == "C08":
             return [("CSV rows compared", tot.get("csv_rows", 0), 10000), ("traces parsed by CSVReader", tot.get("csvreader_parsed", 0), 150),
                     ("scheduler rows compared", tot.get("scheduler_rows_checked", 0), 1000)]
